@@ -418,7 +418,10 @@ DecResult decode_st(int kind, const Bytes &file, uint32_t flags, uint64_t memlim
 	default: r = lzma_stream_decoder(&s, memlimit, flags); break;
 	}
 	if (r != LZMA_OK) { res.status = r; return res; }
-	Bytes buf(1 << 16);
+	// one big output buffer: on rejected input the number of bytes delivered
+	// before the error depends on where the output space ends (known finding
+	// KF-C06-2), so the reference never lets it end
+	static Bytes buf(1 << 22);
 	s.next_in = file.data();
 	s.avail_in = file.size();
 	int stuck = 0;
